@@ -134,7 +134,12 @@ pub fn run_exchange(rq: &RqCfg, payload_bytes: &[u8], conn: &mut Conn, s: &Sched
     match next {
         SendRequestResult::Await100(mut a) => {
             let mut guard = 0;
+            // "giveup" schedules: the caller stops waiting at once and sends the body (the server's 100 arrives late)
+            let give_up = s.name.starts_with("giveup");
             loop {
+                if give_up {
+                    break;
+                }
                 guard += 1;
                 if guard > 100000 {
                     return fail(o, "await-100 loop", conn);
@@ -424,6 +429,7 @@ pub fn c01(o: &Opts, t: &mut Tracer) -> Value {
         let mut stream = vec![];
         let mut msglens = vec![];
         let mut forbidden: Vec<(usize, usize)> = vec![];
+        let mut first_interim = true;
         for k in 0..nresp {
             let last = k + 1 == nresp;
             let status = [200u16, 200, 404, 204, 304, 302, 500, 201][rng.gen_range(0..8)];
@@ -434,6 +440,8 @@ pub fn c01(o: &Opts, t: &mut Tracer) -> Value {
             let blen = if nb && fr == "cl" { 0 } else { [0usize, 1, 7, 300, 5000][rng.gen_range(0..5)] };
             let rs = RespSpec { interim100: expect && rng.gen_bool(0.6), status, ver10: fr == "close" && rng.gen_bool(0.5), framing: fr,
                                 body: if fr == "none" || nb { vec![] } else { payload(blen, (ci * 7 + k) as u64) }, conn_close: rng.gen_bool(0.1) };
+            // (give-up schedules need a server that sends its 100 in every exchange of the connection)
+            first_interim = first_interim && rs.interim100;
             // HEAD etc. with a Content-Length header but no body bytes
             let (bytes, forb) = render_response(&rs, &mut rng);
             for (a, b) in forb {
@@ -490,6 +498,20 @@ pub fn c01(o: &Opts, t: &mut Tracer) -> Value {
             let ss: Vec<usize> = (0..3).map(|_| [1usize, 5, 6, 7, 11, 20, 21, 64, 1024, 1 << 16][rng.gen_range(0..10)]).chain(std::iter::once(1 << 14)).collect();
             let rs: Vec<usize> = (0..3).map(|_| [0usize, 1, 2, 3, 100, 1 << 16][rng.gen_range(0..6)]).chain(std::iter::once(512)).collect();
             scheds.push(Sched { arrivals: arr, send_sizes: ss, read_sizes: rs, queries: 1000 + k as u64, name: format!("random-{}", k) });
+        }
+        if expect && first_interim {
+            // the server does send its 100 Continue, but the caller has stopped waiting: same outcome, the 100 is skipped
+            for (k, p) in [25usize, 26, 32, 37, 24, 12, 40, 60].iter().enumerate() {
+                if allowed(*p) {
+                    scheds.push(Sched { arrivals: vec![*p], send_sizes: send_opts[k % send_opts.len()].clone(), read_sizes: read_opts[k % read_opts.len()].clone(), queries: k as u64, name: format!("giveup-cut@{}", p) });
+                }
+            }
+            scheds.push(Sched { arrivals: vec![], send_sizes: big.clone(), read_sizes: big.clone(), queries: 0, name: "giveup-all-at-once".into() });
+            if total < 3000 {
+                let ones: Vec<usize> = (1..total).filter(|&p| allowed(p)).collect();
+                scheds.push(Sched { arrivals: ones, send_sizes: vec![64, 1 << 16], read_sizes: vec![1 << 16], queries: 3, name: "giveup-one-byte-arrivals".into() });
+            }
+            t.class("c01:gave-up-waiting");
         }
         // send buffers aligned with the line structure of the request head: everything up to the last header
         // line, then room for that line plus 0 / 1 / 2 bytes (the final empty line does or does not fit)
